@@ -49,7 +49,7 @@ var (
 	r5dirs   = []string{"internal/chain/beacon", "internal/core", "internal/dkg", "handler/http"}
 	hits     = counts{}
 	overlay  = map[string]string{}
-	required = map[string]int{"R3.Listen": 4, "R3.NewGrpcClient": 3, "R3.UnaryInterceptor": 1, "R3.StreamInterceptor": 1}
+	required = map[string]int{"R3.Listen": 4, "R3.NewGrpcClient": 3, "R3.UnaryInterceptor": 1, "R3.StreamInterceptor": 1, "R4.NewDKGStore": 1, "R4.NewBoltStore": 1}
 )
 
 func main() {
@@ -224,6 +224,7 @@ func importName(f *ast.File, path string) string {
 }
 
 func transform(path, rel string, src []byte, simsyncPath string, r1, r2, r3, r5 bool) ([]byte, bool, error) {
+	r4 := strings.HasPrefix(rel, "internal/core/")
 	fset := token.NewFileSet()
 	f, err := parser.ParseFile(fset, path, src, parser.ParseComments|parser.SkipObjectResolution)
 	if err != nil {
@@ -273,6 +274,19 @@ func transform(path, rel string, src []byte, simsyncPath string, r1, r2, r3, r5 
 					needSimrt = true
 					keep[randName] = "var _ = %s.Int"
 					hits["R2.Perm"]++
+				}
+			}
+			if r4 {
+				// R4: the stores the daemon opens itself are handed to the simulator's decorators
+				if s, ok := isSel(x.Fun, importName(f, "github.com/drand/drand/v2/internal/dkg"), "NewDKGStore"); ok {
+					edits = append(edits, edit{off(s.Pos()), off(s.End()) - off(s.Pos()), "verifNewDKGStore"})
+					keep[importName(f, "github.com/drand/drand/v2/internal/dkg")] = "var _ = %s.NewDKGStore"
+					hits["R4.NewDKGStore"]++
+				}
+				if s, ok := isSel(x.Fun, importName(f, "github.com/drand/drand/v2/internal/chain/boltdb"), "NewBoltStore"); ok {
+					edits = append(edits, edit{off(s.Pos()), off(s.End()) - off(s.Pos()), "verifNewBoltStore"})
+					keep[importName(f, "github.com/drand/drand/v2/internal/chain/boltdb")] = "var _ = %s.NewBoltStore"
+					hits["R4.NewBoltStore"]++
 				}
 			}
 			if r3 {
